@@ -326,26 +326,63 @@ theorem terminals0_nodup {atoms : List PAtom} (g : GraphOK atoms) : (terminals0 
   unfold terminals0
   exact g.nodup.sublist (List.Sublist.map _ List.filter_sublist)
 
+theorem pathInv_start {atoms : List PAtom} (g : GraphOK atoms) {t m : Nat} (htm : dblAdj atoms t = [m]) :
+    PathInv atoms [] t m := by
+  have hmt : m ∈ dblAdj atoms t := by rw [htm]; simp
+  refine ⟨?_, ?_, ?_, dbl_symm g hmt⟩
+  · have : t ≠ m := fun e => not_self_dbl g t (e ▸ hmt)
+    simp [this]
+  · intro y hy
+    simp only [List.nil_append, List.mem_cons, List.not_mem_nil, or_false] at hy
+    rcases hy with rfl | rfl
+    · exact (dbl_isAtom hmt).2
+    · exact (dbl_isAtom hmt).1
+  · intro y hy z hz
+    simp only [List.nil_append, List.mem_singleton] at hy
+    subst hy
+    rw [htm] at hz
+    simp only [List.mem_singleton] at hz
+    exact Or.inr ⟨hz, rfl⟩
+
 theorem ideal_from {atoms : List PAtom} (g : GraphOK atoms) {t m : Nat} (htm : dblAdj atoms t = [m]) :
     ∃ w, walk atoms (terminals0 atoms) (atoms.length + 1) t m [t, m] = .ok w ∧ Good atoms (atoms.length + 1) [] t m w := by
-  have hmt : m ∈ dblAdj atoms t := by rw [htm]; simp
-  have hinv : PathInv atoms [] t m := by
-    refine ⟨?_, ?_, ?_, dbl_symm g hmt⟩
-    · have : t ≠ m := fun e => not_self_dbl g t (e ▸ hmt)
-      simp [this]
-    · intro y hy
-      simp only [List.nil_append, List.mem_cons, List.not_mem_nil, or_false] at hy
-      rcases hy with rfl | rfl
-      · exact (dbl_isAtom hmt).2
-      · exact (dbl_isAtom hmt).1
-    · intro y hy z hz
-      simp only [List.nil_append, List.mem_singleton] at hy
-      subst hy
-      rw [htm] at hz
-      simp only [List.mem_singleton] at hz
-      exact Or.inr ⟨hz, rfl⟩
-  have := iwalk_ok g (atoms.length + 1) [] t m hinv (by simp; omega)
+  have := iwalk_ok g (atoms.length + 1) [] t m (pathInv_start g htm) (by simp; omega)
   simpa using this
+
+/-- a complete chain is closed: every double-bond partner of one of its atoms is on it (a connected component) -/
+theorem iwalk_closed {atoms : List PAtom} (g : GraphOK atoms) : ∀ (f : Nat) (pre : List Nat) (n m : Nat) (p : List Nat) (l : Nat),
+    PathInv atoms pre n m → walk atoms (terminals0 atoms) f n m (pre ++ [n, m]) = .ok (.chain p l) →
+    ∀ y ∈ p, ∀ z ∈ dblAdj atoms y, z ∈ p
+  | 0, _, _, _, _, _, _, h => by simp [walk] at h
+  | f + 1, pre, n, m, p, l, hinv, h => by
+    unfold walk at h
+    split at h
+    · rename_i hc
+      simp only [Except.ok.injEq, Walk.chain.injEq] at h
+      obtain ⟨rfl, rfl⟩ := h
+      intro y hy z hz
+      have hsplit : pre ++ [n, m] = (pre ++ [n]) ++ [m] := by simp
+      rw [hsplit] at hy ⊢
+      rcases List.mem_append.mp hy with h1 | h1
+      · rcases hinv.closed y h1 z hz with h2 | ⟨h2, _⟩
+        · exact List.mem_append_left _ h2
+        · subst h2; simp
+      · simp only [List.mem_singleton] at h1
+        subst h1
+        obtain ⟨y', hy'⟩ := mem_terminals0 g.nodup (by simpa using hc : y ∈ terminals0 atoms)
+        have hn := hinv.back
+        rw [hy'] at hn hz
+        simp only [List.mem_singleton] at hn hz
+        rw [hz, ← hn]; simp
+    · split at h
+      · simp at h
+      · split at h
+        · simp at h
+        · rename_i x hx
+          have hx' := popOnly_ok hx
+          have hpath : pre ++ [n, m] ++ [x] = (pre ++ [n]) ++ [m, x] := by simp
+          rw [hpath] at h
+          exact iwalk_closed g f (pre ++ [n]) m x p l (hinv.step g hx') h
 
 /-- the ideal walk from an unconsumed terminal ends in an unconsumed terminal -/
 def J (atoms : List PAtom) (terms : List Nat) : Prop :=
@@ -370,20 +407,101 @@ theorem ideal_rev' {atoms : List PAtom} (g : GraphOK atoms) {t m l : Nat} {p : L
     exact (List.nodup_cons.mp hnd).1 hlmem
   exact ⟨hlt, hlT, ideal_reverse g ht htm htr hla hlT hsl⟩
 
-/-- `w` is the result of the ideal walk from some terminal -/
-def Ideal (atoms : List PAtom) (w : Walk) : Prop :=
-  ∃ t m, t ∈ terminals0 atoms ∧ dblAdj atoms t = [m] ∧
+/-- `w` is the result of the ideal walk from one of the terminals `terms` -/
+def IdealFrom (atoms : List PAtom) (terms : List Nat) (w : Walk) : Prop :=
+  ∃ t ∈ terms, ∃ m, dblAdj atoms t = [m] ∧
     walk atoms (terminals0 atoms) (atoms.length + 1) t m [t, m] = .ok w
+
+/-- `w` is the result of the ideal walk from some terminal -/
+def Ideal (atoms : List PAtom) (w : Walk) : Prop := IdealFrom atoms (terminals0 atoms) w
+
+/-- no atom with more than two neighbours carries two double bonds (no hypervalent centre inside a chain of double bonds) -/
+def NoHyperDouble (atoms : List PAtom) : Prop := ∀ l, degAt atoms l > cumMaxNbrs → (dblAdj atoms l).length < 2
+
+def Disj (w w' : Walk) : Prop := ∀ x ∈ walkPath w, x ∉ walkPath w'
+
+theorem triples_terminals {atoms : List PAtom} : ∀ (suf : List Nat) (a y l : Nat), Triples (Step' atoms) (a :: y :: suf) →
+    (y :: suf).getLast? = some l → ∀ x ∈ y :: suf, x ∈ terminals0 atoms → x = l
+  | [], _, y, l, _, hla, x, hx, _ => by
+    simp only [List.getLast?_singleton, Option.some.injEq] at hla
+    simp only [List.mem_singleton] at hx
+    rw [hx, hla]
+  | b :: r, a, y, l, htr, hla, x, hx, hxT => by
+    rcases List.mem_cons.mp hx with rfl | hx'
+    · exact absurd hxT htr.1.1
+    · exact triples_terminals r y b l htr.2 (by rw [List.getLast?_cons_cons] at hla; exact hla) x hx' hxT
+
+theorem triples_links {atoms : List PAtom} : ∀ (suf : List Nat) (a y : Nat), y ∈ dblAdj atoms a →
+    Triples (Step' atoms) (a :: y :: suf) → Links (fun u v => v ∈ dblAdj atoms u) (a :: y :: suf)
+  | [], _, _, h, _ => ⟨h, trivial⟩
+  | b :: r, a, y, h, htr =>
+    ⟨h, triples_links r y b (List.mem_of_mem_erase (by rw [htr.1.2.2.1]; simp)) htr.2⟩
+
+theorem absorb {S : Nat → Prop} {R : Nat → Nat → Prop} (hR : ∀ u v, R u v → (S u ↔ S v)) : ∀ (l : List Nat),
+    Links R l → (∃ x ∈ l, S x) → ∀ y ∈ l, S y
+  | [], _, ⟨_, hx, _⟩, _, _ => by simp at hx
+  | [a], _, ⟨x, hx, hS⟩, y, hy => by
+    simp only [List.mem_singleton] at hx hy
+    rw [hy, ← hx]; exact hS
+  | a :: b :: r, hl, ⟨x, hx, hS⟩, y, hy => by
+    have hb : S b := by
+      rcases List.mem_cons.mp hx with rfl | hx'
+      · exact (hR _ b hl.1).mp hS
+      · exact absorb hR (b :: r) hl.2 ⟨x, hx', hS⟩ b (by simp)
+    rcases List.mem_cons.mp hy with rfl | hy'
+    · exact (hR _ b hl.1).mpr hb
+    · exact absorb hR (b :: r) hl.2 ⟨b, by simp, hb⟩ y hy'
+
+/-- a later chain cannot touch an earlier complete chain -/
+theorem chain_disjoint {atoms : List PAtom} (g : GraphOK atoms) (hn : NoHyperDouble atoms) {t m l t' : Nat} {p : List Nat}
+    (htm : dblAdj atoms t = [m])
+    (hw : walk atoms (terminals0 atoms) (atoms.length + 1) t m [t, m] = .ok (.chain p l))
+    (ht' : t' ∈ terminals0 atoms) (hne1 : t' ≠ t) (hne2 : t' ≠ l) {w' : Walk} (hw' : IdealFrom atoms [t'] w') :
+    Disj (.chain p l) w' := by
+  obtain ⟨t'', ht'', m', htm', hwalk'⟩ := hw'
+  simp only [List.mem_singleton] at ht''
+  subst ht''
+  have hclosed := iwalk_closed g _ [] t m p l (pathInv_start g htm) hw
+  obtain ⟨w0, hw0, hgood⟩ := ideal_from g htm
+  rw [hw] at hw0
+  simp only [Except.ok.injEq] at hw0
+  subst hw0
+  obtain ⟨suf, hp, _, htr, hla, _, _⟩ := hgood
+  simp only [List.nil_append, List.cons_append] at hp
+  obtain ⟨w1, hw1, hgood'⟩ := ideal_from g htm'
+  rw [hwalk'] at hw1
+  simp only [Except.ok.injEq] at hw1
+  subst hw1
+  intro x hx hx'
+  cases w' with
+  | broken q =>
+    obtain ⟨l', _, hd, h2⟩ := hgood'
+    have := hn l' hd; omega
+  | chain p' l' =>
+    obtain ⟨suf', hp', _, htr', _, _, _⟩ := hgood'
+    simp only [List.nil_append, List.cons_append] at hp'
+    simp only [walkPath] at hx hx'
+    have hlinks : Links (fun u v => v ∈ dblAdj atoms u) p' := by
+      rw [hp']; exact triples_links suf' t'' m' (by rw [htm']; simp) htr'
+    have hall := absorb (S := fun u => u ∈ p) (R := fun u v => v ∈ dblAdj atoms u)
+      (fun u v huv => ⟨fun hu => hclosed u hu v huv, fun hv => hclosed v hv u (dbl_symm g huv)⟩) p' hlinks ⟨x, hx', hx⟩
+    have ht'p : t'' ∈ p := hall t'' (by rw [hp']; simp)
+    rw [hp] at ht'p
+    rcases List.mem_cons.mp ht'p with h | h
+    · exact hne1 h
+    · exact hne2 (triples_terminals suf t m l htr hla t'' h ht')
+
 
 theorem cumLoop_ok {atoms : List PAtom} (g : GraphOK atoms) : ∀ (f : Nat) (terms : List Nat), terms.length ≤ f →
     terms.Nodup → (∀ t ∈ terms, t ∈ terminals0 atoms) → J atoms terms →
-    ∃ ws, cumLoop atoms f terms = .ok ws ∧ ∀ w ∈ ws, Ideal atoms w
-  | _, [], _, _, _, _ => ⟨[], by simp [cumLoop], by simp⟩
+    ∃ ws, cumLoop atoms f terms = .ok ws ∧ (∀ w ∈ ws, IdealFrom atoms terms w) ∧
+      (NoHyperDouble atoms → ws.Pairwise Disj)
+  | _, [], _, _, _, _ => ⟨[], by simp [cumLoop], by simp, fun _ => List.Pairwise.nil⟩
   | 0, _ :: _, h, _, _, _ => by simp at h
   | f + 1, t :: rest, hlen, hnd, hsub, hJ => by
     have htT := hsub t (by simp)
     obtain ⟨m, htm⟩ := mem_terminals0 g.nodup htT
-    obtain ⟨w, hw, _⟩ := ideal_from g htm
+    obtain ⟨w, hw, hgoodw⟩ := ideal_from g htm
     have htrest : t ∉ rest := (List.nodup_cons.mp hnd).1
     have hndr : rest.Nodup := (List.nodup_cons.mp hnd).2
     have hsubr : ∀ s ∈ rest, s ∈ terminals0 atoms := fun s hs => hsub s (List.mem_cons_of_mem _ hs)
@@ -426,15 +544,23 @@ theorem cumLoop_ok {atoms : List PAtom} (g : GraphOK atoms) : ∀ (f : Nat) (ter
         rcases List.mem_cons.mp hs' with h | h
         · exact absurd h hne_t
         · exact (hndr.mem_erase_iff.mpr ⟨hne_l, h⟩)
-      obtain ⟨r, hr, hri⟩ := cumLoop_ok g f (rest.erase l)
+      obtain ⟨r, hr, hri, hrp⟩ := cumLoop_ok g f (rest.erase l)
         (by have := List.length_erase_of_mem hlrest; simp at hlen; omega)
         (hndr.sublist List.erase_sublist) (fun s hs => hsubr s (List.mem_of_mem_erase hs)) hJ'
       rw [hr]
-      refine ⟨_, rfl, ?_⟩
-      intro w' hw'
-      rcases List.mem_cons.mp hw' with rfl | hw'
-      · exact ⟨t, m, htT, htm, hw⟩
-      · exact hri w' hw'
+      refine ⟨_, rfl, ?_, ?_⟩
+      · intro w' hw'
+        rcases List.mem_cons.mp hw' with rfl | hw'
+        · exact ⟨t, by simp, m, htm, hw⟩
+        · obtain ⟨t', ht', hrest'⟩ := hri w' hw'
+          exact ⟨t', List.mem_cons_of_mem _ (List.mem_of_mem_erase ht'), hrest'⟩
+      · intro hn
+        refine List.Pairwise.cons ?_ (hrp hn)
+        intro w' hw'
+        obtain ⟨t', ht', m', htm', hwalk'⟩ := hri w' hw'
+        have ht'r : t' ∈ rest := List.mem_of_mem_erase ht'
+        exact chain_disjoint g hn htm hw (hsubr t' ht'r) (fun e => htrest (e ▸ ht'r))
+          (hndr.mem_erase_iff.mp ht').1 ⟨t', by simp, m', htm', hwalk'⟩
     | broken p =>
       have hreal := walk_agree rest hsubr _ _ _ _ _ hw (fun p' l' h => by cases h)
       rw [hreal]
@@ -451,35 +577,37 @@ theorem cumLoop_ok {atoms : List PAtom} (g : GraphOK atoms) : ∀ (f : Nat) (ter
           rw [hw] at hrevs
           simp at hrevs
         · exact h
-      obtain ⟨r, hr, hri⟩ := cumLoop_ok g f rest (by simp at hlen; omega) hndr hsubr hJ'
+      obtain ⟨r, hr, hri, _⟩ := cumLoop_ok g f rest (by simp at hlen; omega) hndr hsubr hJ'
       rw [hr]
-      refine ⟨_, rfl, ?_⟩
-      intro w' hw'
-      rcases List.mem_cons.mp hw' with rfl | hw'
-      · exact ⟨t, m, htT, htm, hw⟩
-      · exact hri w' hw'
+      refine ⟨_, rfl, ?_, ?_⟩
+      · intro w' hw'
+        rcases List.mem_cons.mp hw' with rfl | hw'
+        · exact ⟨t, by simp, m, htm, hw⟩
+        · obtain ⟨t', ht', hrest'⟩ := hri w' hw'
+          exact ⟨t', List.mem_cons_of_mem _ ht', hrest'⟩
+      · intro hn
+        exfalso
+        obtain ⟨l', _, hd, h2⟩ := hgoodw
+        have := hn l' hd; omega
 
 /-- **`cumulenes` never fails on a well-formed graph** -/
 theorem cumulenesTagged_ok {atoms : List PAtom} (g : GraphOK atoms) :
-    ∃ ws, cumulenesTagged atoms = .ok ws ∧ ∀ w ∈ ws, Ideal atoms w := by
+    ∃ ws, cumulenesTagged atoms = .ok ws ∧ (∀ w ∈ ws, Ideal atoms w) ∧ (NoHyperDouble atoms → ws.Pairwise Disj) := by
   unfold cumulenesTagged
   refine cumLoop_ok g _ _ (Nat.le_refl _) (terminals0_nodup g) (fun _ h => h) ?_
   intro t ht m p l htm hw
   exact (ideal_rev' g ht htm hw).2.1
 
 theorem perceive_ok {atoms : List PAtom} (g : GraphOK atoms) : ∃ p, perceive atoms = .ok p := by
-  obtain ⟨ws, hws, _⟩ := cumulenesTagged_ok g
+  obtain ⟨ws, hws, _, _⟩ := cumulenesTagged_ok g
   unfold perceive cumulenes
   rw [hws]
   exact ⟨_, rfl⟩
 
-/-- no atom with more than two neighbours carries two double bonds (no hypervalent centre inside a chain of double bonds) -/
-def NoHyperDouble (atoms : List PAtom) : Prop := ∀ l, degAt atoms l > cumMaxNbrs → (dblAdj atoms l).length < 2
-
 /-- without such atoms every walk ends in a terminal: `cumulenes` reports maximal chains only -/
 theorem cumulenes_maximal {atoms : List PAtom} (g : GraphOK atoms) (hn : NoHyperDouble atoms) {paths : List (List Nat)}
     (h : cumulenes atoms = .ok paths) : ∀ p ∈ paths, MaximalChain can atoms p := by
-  obtain ⟨ws, hws, hid⟩ := cumulenesTagged_ok g
+  obtain ⟨ws, hws, hid, _⟩ := cumulenesTagged_ok g
   unfold cumulenes at h
   rw [hws] at h
   simp only [Except.ok.injEq] at h
@@ -493,7 +621,7 @@ theorem cumulenes_maximal {atoms : List PAtom} (g : GraphOK atoms) (hn : NoHyper
     subst hpw; exact hs
   | broken q =>
     exfalso
-    obtain ⟨t, m, _, htm, hw⟩ := hid _ hwm
+    obtain ⟨t, _, m, htm, hw⟩ := hid _ hwm
     obtain ⟨w', hw', hgood⟩ := ideal_from g htm
     rw [hw] at hw'
     simp only [Except.ok.injEq] at hw'
@@ -502,8 +630,78 @@ theorem cumulenes_maximal {atoms : List PAtom} (g : GraphOK atoms) (hn : NoHyper
     have := hn l hd
     omega
 
-def noHyperDoubleb (atoms : List PAtom) : Bool :=
-  atoms.all fun a => !(decide (a.nbrs.length > cumMaxNbrs)) || decide ((dblAdj atoms a.num).length < 2)
+/-! ### no atom is a key of two cis/trans units (molecules without a hypervalent centre inside a chain) -/
+
+theorem paths_pairwise : ∀ (ws : List Walk), ws.Pairwise Disj → (∀ w ∈ ws, ∃ p l, w = .chain p l) →
+    (ws.flatMap Walk.paths).Pairwise (fun p q => ∀ x ∈ p, x ∉ q)
+  | [], _, _ => by simp
+  | w :: r, hp, hc => by
+    obtain ⟨p, l, rfl⟩ := hc w (by simp)
+    have hp' := List.pairwise_cons.mp hp
+    simp only [List.flatMap_cons, Walk.paths, List.singleton_append]
+    refine List.Pairwise.cons ?_ (paths_pairwise r hp'.2 (fun w hw => hc w (by simp [hw])))
+    intro q hq
+    obtain ⟨w', hw', hqw⟩ := List.mem_flatMap.mp hq
+    obtain ⟨p', l', rfl⟩ := hc w' (by simp [hw'])
+    simp only [Walk.paths, List.mem_singleton] at hqw
+    subst hqw
+    exact hp'.1 _ hw'
+
+theorem stereogenic_sublist (atoms : List PAtom) : ∀ (paths : List (List Nat)),
+    ((stereogenicOf atoms paths).map (·.1)).Sublist paths
+  | [] => by simp [stereogenicOf]
+  | p :: r => by
+    have ih := stereogenic_sublist atoms r
+    unfold stereogenicOf at ih ⊢
+    rw [List.filterMap_cons]
+    cases hs : stereoEnv atoms p with
+    | none => simp only [Option.map_none]; exact List.Sublist.cons _ ih
+    | some e => simp only [Option.map_some, List.map_cons]; exact List.Sublist.cons_cons _ ih
+
+theorem keys4_sub (path : List Nat) : ∀ x ∈ keys4 path, x ∈ path := by
+  intro x hx
+  unfold keys4 at hx
+  cases he : evenKeys path with
+  | none => simp [he] at hx
+  | some v =>
+    obtain ⟨n, m, c1, c2⟩ := v
+    obtain ⟨_, h1, h2, h3, h4⟩ := evenKeys_some he
+    simp only [he, List.mem_cons, List.not_mem_nil, or_false] at hx
+    rcases hx with rfl | rfl | rfl | rfl
+    · exact List.mem_of_mem_head? (by rw [h1]; rfl)
+    · exact List.mem_of_getLast? h2
+    · exact List.mem_of_getElem? h3
+    · exact List.mem_of_getElem? h4
+
+/-- **`KeysDisjoint` holds for every well-formed molecule without a hypervalent centre inside a chain of double bonds** -/
+theorem keysDisjoint_of_noHyper {atoms : List PAtom} (g : GraphOK atoms) (hn : NoHyperDouble atoms) {p : Perceived}
+    (hp : perceive atoms = .ok p) : KeysDisjoint (p.stereogenic.map (·.1)) := by
+  obtain ⟨_, _, _, hc, hs⟩ := perceive_fields hp
+  obtain ⟨ws, hws, hid, hpw⟩ := cumulenesTagged_ok g
+  have hchains : ∀ w ∈ ws, ∃ q l, w = .chain q l := by
+    intro w hwm
+    cases w with
+    | chain q l => exact ⟨q, l, rfl⟩
+    | broken q =>
+      exfalso
+      obtain ⟨t, _, m, htm, hw⟩ := hid _ hwm
+      obtain ⟨w', hw', hgood⟩ := ideal_from g htm
+      rw [hw] at hw'
+      simp only [Except.ok.injEq] at hw'
+      subst hw'
+      obtain ⟨l, _, hd, h2⟩ := hgood
+      have := hn l hd; omega
+  have hpaths : p.cumulenes = ws.flatMap Walk.paths := by
+    unfold cumulenes at hc
+    rw [hws] at hc
+    simp only [Except.ok.injEq] at hc
+    exact hc.symm
+  have h1 := paths_pairwise ws (hpw hn) hchains
+  rw [← hpaths] at h1
+  have h2 := h1.sublist (stereogenic_sublist atoms p.cumulenes)
+  rw [← hs] at h2
+  unfold KeysDisjoint
+  exact h2.imp (fun {a b} hab x hx hx' => hab x (keys4_sub a x hx) (keys4_sub b x hx'))
 
 theorem noHyperDoubleb_sound (atoms : List PAtom) (h : noHyperDoubleb atoms = true) : NoHyperDouble atoms := by
   intro l hd
